@@ -55,6 +55,7 @@ def run(tier):
     with open(os.devnull, "w") as devnull:
         import subprocess
         p = subprocess.run([C.TSGV, "stdlib", C.CORPUS_PY, cin, cout], stdout=subprocess.PIPE, stderr=devnull, text=True, timeout=3000)
+    C.killed_from_outside(p.returncode)
     if p.returncode != 0:
         # a crash of the whole batch is a finding about the library (abort / stack overflow); report it as such
         path = C.write_replay(PROP, "batch-crash", {"property": PROP, "detail": "the replay process died with status %d" % p.returncode})
